@@ -21,6 +21,9 @@
 //!                          gate: Terminate | Reconfigure(main config changed | nothing changed |
 //!                          this peer's config changed | this peer removed | only another peer's entry
 //!                          changed: one is added, with its own hold time)
+//!   M                      (C15 profile) after the session: read the unit's own counters from the Prometheus text the
+//!                          real BgpTcpInMetrics source renders (through the independent reader engines/promtext.rs):
+//!                          token met:lost=<bgp_tcp_in_connection_lost_count>,disc=<bgp_tcp_in_disconnect_count>
 //! When the script is over the session channel is closed.
 //! Observation: end:<process returned> used:<events taken> <one token per update> live:<keys>
 //! cmds:<Disconnect reasons sent to the session> <one q token per prefix>
@@ -104,7 +107,7 @@ pub fn run_case(line: &str) -> String {
     let rt = tokio::runtime::Builder::new_current_thread().enable_all().build().unwrap();
     let _g = rt.enter();
     let mut names = Names { session: 7, attrs: HashMap::new() };
-    let (mut dup, mut other) = (false, true);
+    let (mut dup, mut other, mut metrics) = (false, true, false);
     let mut pre: Vec<UpdateMessage<Bytes>> = vec![];
     let mut events: Vec<bs::Event> = vec![];
     let mut queried: BTreeSet<u32> = BTreeSet::new();
@@ -136,6 +139,7 @@ pub fn run_case(line: &str) -> String {
             "l" => events.push(bs::Event::ConnectionLost(op[1] == "1")),
             "x" => events.push(bs::Event::ChannelClosed),
             "T" => events.push(bs::Event::Terminate),
+            "M" => metrics = true,
             "r" => events.push(bs::Event::Reconfigure(match op[1] {
                 "unit" => bs::Reconf::Unit,
                 "same" => bs::Reconf::Same,
@@ -182,7 +186,19 @@ pub fn run_case(line: &str) -> String {
         es.sort();
         toks.push(format!("q{}:{}", p, if es.is_empty() { "-".into() } else { es.join(",") }));
     }
+    if metrics { toks.push(unit_counters(&out.metrics_prometheus)); }
     toks.join(" ")
+}
+
+/// the bgp-tcp-in unit's own counters (src/units/bgp_tcp_in/metrics.rs) from the rendered /metrics text
+fn unit_counters(text: &str) -> String {
+    match super::promtext::parse(text) {
+        Err(e) => format!("met:BAD:{e}"),
+        Ok(p) => {
+            let one = |n: &str| p.get(n, &[("component", "verif")]).unwrap_or("?").to_string();
+            format!("met:lost={},disc={}", one("rotonda_bgp_tcp_in_connection_lost_count_total"), one("rotonda_bgp_tcp_in_disconnect_count_total"))
+        }
+    }
 }
 
 fn frame(ty: u8, body: &[u8]) -> Vec<u8> {
